@@ -45,6 +45,7 @@ type hty struct {
 	untyped  bool // int: an untyped constant
 	monadic  bool   // func: a function of another package (extern:): its result is in res
 	own      *heown // eptr: the cell variable and slice field the pointer points into (fn_heap_eptr.go)
+	vres     bool   // struct (owned), as a result: nil or the receiver itself on some path: go_vres V
 }
 
 // hshape: what a translated function needs besides its Go arguments, when it is used as a value
@@ -93,6 +94,9 @@ func (t *hty) coq() string {
 		s := t.name
 		for _, a := range t.args {
 			s += " " + parenT(a.coq())
+		}
+		if t.vres {
+			return "go_vres " + parenT(s)
 		}
 		return s
 	case "slice":
@@ -1066,6 +1070,11 @@ func (c *hctx) useStruct(s *hstruct, at ast.Node) {
 			if ft.k == "slice" && ft.elem.k == "struct" {
 				c.useStruct(ft.elem.st, at)
 			}
+		case "func":
+			// a pure function held in a field of a value struct (Tree.compare, Tree.limit)
+			if s.cell || len(ft.res) == 0 || ft.stateful || ft.monadic || ft.shape != nil || ft.raw != "" {
+				c.lostAt(at, "struct type %s with the field %s of type %s", s.name, s.fnames[i], ft.name)
+			}
 		default:
 			c.lostAt(at, "struct type %s with the field %s of type %s", s.name, s.fnames[i], ft.name)
 		}
@@ -1148,8 +1157,9 @@ func (c *hctx) function() {
 				c.nilVar = c.newVar(c.recvObj.Name()+"_nil", htBool, "param")
 			}
 			used, mut := c.scanFields(s)
+			wholeRecv := c.derefsRecv() // *t: every field is read
 			for i, f := range s.fnames {
-				if !used[f] && !mut[f] {
+				if !used[f] && !mut[f] && !wholeRecv {
 					continue
 				}
 				ft := s.ftypes[i]
@@ -1252,6 +1262,14 @@ func (c *hctx) function() {
 		t := c.mustType(rv.Type(), fd)
 		if t.k == "func" {
 			c.lostAt(fd, "function-typed result")
+		}
+		if t.k == "struct" && t.owned && c.vresSlots(sig)[i] {
+			if rv.Name() != "" {
+				c.lostAt(fd, "named result %s that may be nil or the receiver", rv.Name())
+			}
+			u := *t
+			u.vres = true // nil or the receiver itself on some path
+			t = &u
 		}
 		fn.results = append(fn.results, t)
 		if rv.Name() != "" {
